@@ -704,12 +704,13 @@ func (ev *Evaluator) absElem(pos token.Pos, s AbsSeq, idx Lin) Value {
 			return v
 		}
 	}
-	if ev.Domain == nil {
-		ev.fail(pos, "read of abstract element %s without a domain", key)
+	var dom []Value
+	if ev.Domain != nil {
+		dom = ev.Domain(s)
 	}
-	dom := ev.Domain(s)
 	if dom == nil {
-		ev.fail(pos, "read of abstract element %s: no domain", key)
+		// no finite domain: the element stays symbolic
+		return Sym(key)
 	}
 	// the element must be addressed by the index of an enclosing abstract loop
 	var owner *loopCtx
